@@ -152,3 +152,11 @@ Theorem C26_updated_generator_compatible : forall gph tb g old new typ,
   In g (offered_r gph (tb_update tb g old new) typ) -> is_maybe_subtype gph new typ = true.
 Proof. exact updated_generator_compatible. Qed.
 Print Assumptions C26_updated_generator_compatible.
+
+(* --- queries are observations: whatever sequence of (memoised) queries and evictions is interleaved,
+   a later query is answered as on the unchanged graph *)
+Theorem C26_queries_leave_answers_unchanged : forall anyd s ops q,
+  fresh_cache (gr s) anyd (ca s) -> forallb is_observation ops = true ->
+  snd (step true anyd (fst (run true anyd s ops)) (Query q)) = Some (compute (gr s) anyd q).
+Proof. exact queries_leave_answers_unchanged. Qed.
+Print Assumptions C26_queries_leave_answers_unchanged.
